@@ -197,6 +197,19 @@ Definition iset_get_bseries_orig {T} (o : tiset T) (mask : list (Z * bool)) : re
     end
   else Err.
 
+(* ep[boolean pd.Series, :] (the tuple form) as it is in /repo before ITS repair: values by position,
+   metadata by .iloc[Series], which pandas ALIGNS on the index labels exactly like .loc - the same
+   function as iset_get_bseries_orig.  As repaired (key[0] = np.asarray(key[0]) first) the tuple forms
+   ep[pd.Index / pd.Series, :] are iset_get_labels / iset_get_bseries themselves. *)
+Definition iset_get_bseries_tuple_orig {T} (o : tiset T) (mask : list (Z * bool)) : res T :=
+  iset_get_bseries_orig o mask.
+
+(* IntervalSet.groupby(by, get_group=v): pandas returns the LABELS of the metadata rows in the group,
+   in index order, as a pd.Index; then self[idx], the pd.Index form of __getitem__.
+   (ep.loc[list] is self[list], i.e. iset_get_pos.) *)
+Definition iset_get_group {T} (o : tiset T) (p : T -> bool) : res T :=
+  iset_get_labels o (labels (filter (fun r => p (snd r)) (snd o))).
+
 (* intersect: metadata rows of both parents (by .loc on the parent indices the kernel returns),
    joined side by side *)
 Definition iset_intersect {T U} (a : tiset T) (b : tiset U) : res (T * U) :=
